@@ -104,7 +104,22 @@ func Shuffle[T any](r *Rand, xs []T) {
 // ---------------------------------------------------------------------------
 // Virtual clock.
 
-type VClock struct{ ns atomic.Int64 }
+type VClock struct {
+	ns atomic.Int64
+	// afterRead, when set, runs inside Now() after the value has been read and
+	// before it is returned: a delay injected at the point where a caller of the
+	// product code has read the clock but not yet used the reading.
+	afterRead atomic.Pointer[func()]
+}
+
+// SetAfterRead installs (or, with nil, removes) the delay hook of Now().
+func (c *VClock) SetAfterRead(f func()) {
+	if f == nil {
+		c.afterRead.Store(nil)
+		return
+	}
+	c.afterRead.Store(&f)
+}
 
 // Epoch is the default start of virtual time (2026-01-01T00:00:00Z).
 var Epoch = time.Date(2026, 1, 1, 0, 0, 0, 0, time.UTC)
@@ -114,7 +129,13 @@ func NewVClock(start time.Time) *VClock {
 	c.ns.Store(start.UnixNano())
 	return c
 }
-func (c *VClock) Now() time.Time          { return time.Unix(0, c.ns.Load()).UTC() }
+func (c *VClock) Now() time.Time {
+	t := time.Unix(0, c.ns.Load()).UTC()
+	if f := c.afterRead.Load(); f != nil {
+		(*f)()
+	}
+	return t
+}
 func (c *VClock) NowNS() int64            { return c.ns.Load() }
 func (c *VClock) Advance(d time.Duration) { c.ns.Add(int64(d)) }
 func (c *VClock) Set(t time.Time)         { c.ns.Store(t.UnixNano()) }
